@@ -109,6 +109,10 @@ add(Contract(
         "forall(0, len(result), lambda j: isbytes(result[j]))",
         "begin == len(joined(result))",
         "begin == ite(it == 0, 0, skey(self.fragments, it - 1) + len(self.fragments[skey(self.fragments, it - 1)]))",
+        # every chunk emitted so far ends at or before `begin`
+        "forall(0, it, lambda j: skey(self.fragments, j) >= 0 and"
+        "       skey(self.fragments, j) + len(self.fragments[skey(self.fragments, j)]) <= begin,"
+        "       pat=lambda j: skey(self.fragments, j))",
         "forall(lambda j, t: implies(0 <= j and j < it and 0 <= t and t < len(self.fragments[skey(self.fragments, j)]),"
         "       joined(result)[skey(self.fragments, j) + t] == self.fragments[skey(self.fragments, j)][t]))",
         "forall(0, begin, lambda p: implies(not occupied(self, p), joined(result)[p] == self.fill[0]))",
